@@ -137,3 +137,42 @@ def make_aggregator(aggmod, name):
     if name.startswith("q"):
         return aggmod.get(name[1:])
     return aggmod.get(name)
+
+
+def r_avg_ranks(S, xs):
+    """1-based ranks, ties share the mean of their positions."""
+    out = []
+    for x in xs:
+        less = sum(1 for y in xs if bool(y < x))       # order relations decided by forking
+        equal = sum(1 for y in xs if bool(y == x))
+        out.append(less + 1 + (equal - 1) / 2.0)
+    return out
+
+
+def r_pearson(S, xs, ys):
+    mx, my = r_mean(S, xs), r_mean(S, ys)
+    sxy = r_sum(S, [(a - mx) * (b - my) for a, b in zip(xs, ys)])
+    sxx = r_sum(S, [(a - mx) * (a - mx) for a in xs])
+    syy = r_sum(S, [(b - my) * (b - my) for b in ys])
+    return S.div(sxy, S.sqrt(sxx * syy)), S.and_(sxx != 0, syy != 0)
+
+
+def r_spearman(S, xs, ys):
+    """Spearman's rho = Pearson correlation of the average ranks: (value, defined)."""
+    return r_pearson(S, r_avg_ranks(S, xs), r_avg_ranks(S, ys))
+
+
+def r_kendall_b(S, xs, ys):
+    """Kendall's tau-b: (value, defined)."""
+    n = len(xs)
+    conc = disc = tx = ty = 0
+    for i in range(n):
+        for j in range(i + 1, n):
+            same_dir = bool(S.or_(S.and_(xs[i] < xs[j], ys[i] < ys[j]), S.and_(xs[i] > xs[j], ys[i] > ys[j])))
+            opp_dir = bool(S.or_(S.and_(xs[i] < xs[j], ys[i] > ys[j]), S.and_(xs[i] > xs[j], ys[i] < ys[j])))
+            conc += 1 if same_dir else 0
+            disc += 1 if opp_dir else 0
+            tx += 1 if bool(S.and_(xs[i] == xs[j], ys[i] != ys[j])) else 0
+            ty += 1 if bool(S.and_(ys[i] == ys[j], xs[i] != xs[j])) else 0
+    den2 = (conc + disc + tx) * (conc + disc + ty)
+    return S.div(conc - disc, S.sqrt(den2 * 1.0)), den2 != 0
